@@ -414,6 +414,15 @@ class Inliner:
         f = _lookup(self.facts, cal)
         return f is not None and f["key"] != caller_key
 
+    def tool_local_operator(self, cal):
+        """operator of a helper struct that a command-line tool defines for itself (src/bin/*.cpp): part of the tool's main,
+        not a unit any rule is phrased over"""
+        q = cal.get("qn") or ""
+        if not q.split("::")[-1].startswith("operator") or not cal.get("cls"):
+            return False
+        r = self.facts.records.get(cal["cls"])
+        return r is not None and "/src/bin/" in (r.get("file") or "")
+
     def target_function(self, call, caller_key=None):
         cal = call.get("callee") or {}
         if self.delegation(call, caller_key):
@@ -432,15 +441,15 @@ class Inliner:
             if kept is not None:
                 self.kept_calls[kept["key"]] = self.kept_calls.get(kept["key"], 0) + 1
             return None
-        if call.get("k") not in ("Call", "MCall"):
+        if call.get("k") not in ("Call", "MCall") and not (call.get("k") == "OpCall" and self.tool_local_operator(cal)):
             return None
         q = cal.get("qn") or ""
-        if is_unit(q):
+        if is_unit(q) and not self.tool_local_operator(cal):
             return None
         f = _lookup(self.facts, cal)
         if f is None or f.get("body_raw", f.get("body")) is None:
             return None
-        helper = bool(f.get("internal")) or f.get("access", 0) in (1, 2)
+        helper = bool(f.get("internal")) or f.get("access", 0) in (1, 2) or self.tool_local_operator(cal)
         if not helper:
             # cheap pre-filter for getters / forwarders: declarations followed by one return
             st = ir.stmts(f.get("body_raw", f.get("body")))
@@ -452,6 +461,8 @@ class Inliner:
         """helper (non-public / internal linkage), or a getter / forwarder: after its own locals were folded, the body
         is a single returned expression (arguments are substituted only when that keeps their evaluation count)."""
         if bool(f.get("internal")) or f.get("access", 0) in (1, 2):
+            return True
+        if self.tool_local_operator({"qn": f.get("qn"), "cls": f.get("cls")}):
             return True
         st = ir.stmts(nb)
         return len(st) == 1 and st[0].get("k") == "Return" and st[0].get("e") is not None
@@ -925,7 +936,10 @@ class Inliner:
         if nb is None or not (self.inlinable(f, nb) or deleg):
             return None
         recv = call.get("recv") if call.get("k") == "MCall" else None
-        return f["params"], nb, recv, f["qn"], False, f["key"], call.get("args", [])
+        args_ = call.get("args", [])
+        if call.get("k") == "OpCall" and f.get("cls") and args_:
+            recv, args_ = args_[0], args_[1:]          # member operator: the left operand is the object
+        return f["params"], nb, recv, f["qn"], False, f["key"], args_
 
     def bind(self, params, args, pmap, line):
         decls = []
@@ -1274,7 +1288,7 @@ class Inliner:
         def is_call(e):
             u = unwrap(e)
             return isinstance(u, dict) and u.get("k") in ("Call", "MCall", "OpCall") and \
-                (u.get("k") != "OpCall" or u.get("op") == "()")
+                (u.get("k") != "OpCall" or u.get("op") == "()" or self.tool_local_operator(u.get("callee") or {}))
         def drop(e):
             # a discarded result: the returned expression is still evaluated for its effects
             if e is None or is_pure(e, self.facts):
@@ -1916,6 +1930,123 @@ def eliminate_local_memos(body, facts, memo=None):
     return removed
 
 
+_SROA_COUNTER = [300000]
+
+
+def scalar_replace_aggregates(body, facts):
+    """N8: a local of a plain struct type (no bases, no member functions) that is only ever used field by field is the set of
+    its fields: `Counts c; c.qr += n; print(c.qr)` becomes `c.qr` as a local of its own (initialised from the default member
+    initialiser or the matching element of a braced initialiser).  Returns the number of locals replaced."""
+    count = 0
+    decls = []
+    for n in walk(body):
+        if n.get("k") == "Decl" and len(n.get("vars", [])) == 1:
+            v = n["vars"][0]
+            t = (v.get("t") or "").replace("const ", "")
+            r = facts.records.get(t)
+            if r is None or r.get("bases") or r.get("polymorphic") or not r.get("fields") or v.get("ref") or t.endswith(("&", "*")):
+                continue
+            init = unwrap(v.get("init")) if v.get("init") is not None else None
+            elems = None
+            if init is None or (isinstance(init, dict) and init.get("k") == "Construct" and not init.get("args") and not init.get("copymove")):
+                elems = None
+            elif isinstance(init, dict) and init.get("k") == "InitList" and len(init.get("c", [])) == len(r["fields"]):
+                elems = init["c"]
+            else:
+                continue
+            decls.append((n, v, r, elems, init is not None))
+    if not decls:
+        return 0
+    parents = {}
+    for n, ps in ir.walk_with_parents(body):
+        if n.get("k") == "Ref" and n.get("d") == "local":
+            parents.setdefault(n.get("id"), []).append((n, ps[-1] if ps else None))
+    for d, v, r, elems, constructed in decls:
+        uses = parents.get(v.get("id"), [])
+        if not uses or not all(isinstance(p_, dict) and p_.get("k") == "Member" and p_.get("field") and unwrap(p_.get("base")) is u_ for u_, p_ in uses):
+            continue
+        names = [f_["n"] for f_ in r["fields"]]
+        if not all(p_.get("n") in names for _, p_ in uses):
+            continue
+        ids = {}
+        new_vars = []
+        for i, f_ in enumerate(r["fields"]):
+            _SROA_COUNTER[0] += 1
+            ids[f_["n"]] = _SROA_COUNTER[0]
+            fi = None
+            if elems is not None:
+                fi = copy.deepcopy(elems[i])
+            elif constructed and f_.get("init") is not None:
+                fi = copy.deepcopy(f_["init"])
+            nv = {"n": "%s.%s" % (v.get("n"), f_["n"]), "id": ids[f_["n"]], "t": f_["t"], "tw": f_.get("tw", f_["t"]), "l": v.get("l")}
+            if fi is not None:
+                nv["init"] = fi
+            new_vars.append({"k": "Decl", "l": d.get("l"), "vars": [nv]})
+        for u_, p_ in uses:
+            fn_ = p_["n"]
+            t_ = p_.get("t")
+            for key in list(p_.keys()):
+                del p_[key]
+            p_.update({"k": "Ref", "d": "local", "id": ids[fn_], "n": "%s.%s" % (v.get("n"), fn_), "t": t_, "l": u_.get("l")})
+        d["k"] = "Block"
+        d["s"] = new_vars
+        d["sroa"] = True
+        d.pop("vars", None)
+        count += 1
+    if count:
+        # splice the declaration groups into their parent blocks (a Block node in a statement list would open a scope)
+        for b in walk(body):
+            if b.get("k") == "Block" and any(isinstance(x, dict) and x.get("sroa") for x in b.get("s", [])):
+                out = []
+                for x in b["s"]:
+                    if isinstance(x, dict) and x.get("sroa"):
+                        out.extend(x["s"])
+                    else:
+                        out.append(x)
+                b["s"] = out
+    return count
+
+
+def merge_decl_with_first_store(body):
+    """`T x = <constant or nothing>; ...(x not mentioned)...; x = e;` in one block is `...; T x = e;`: the declaration moves down to
+    the store that gives the local its first real value (only scalar locals; e does not mention x)."""
+    count = 0
+    for b in [x for x in walk(body) if x.get("k") == "Block"]:
+        changed = True
+        while changed:
+            changed = False
+            sts = b.get("s", [])
+            for i, st in enumerate(sts):
+                if not (isinstance(st, dict) and st.get("k") == "Decl" and len(st.get("vars", [])) == 1):
+                    continue
+                v = st["vars"][0]
+                if v.get("ref") or "id" not in v or (v.get("t") or "").startswith("CDNS::") or "std::" in (v.get("t") or ""):
+                    continue
+                if v.get("init") is not None and ir.const_value(v["init"]) is None:
+                    continue
+
+                def mentions(n):
+                    return any(x.get("k") == "Ref" and x.get("d") == "local" and x.get("id") == v["id"] for x in walk(n))
+                for j in range(i + 1, len(sts)):
+                    sj = sts[j]
+                    if not isinstance(sj, dict) or not mentions(sj):
+                        continue
+                    u = unwrap(sj)
+                    if isinstance(u, dict) and u.get("k") == "Bin" and u.get("op") == "=" and \
+                            unwrap(u.get("lhs")).get("k") == "Ref" and unwrap(u["lhs"]).get("id") == v["id"] and not mentions(u.get("rhs")):
+                        nv = dict(v)
+                        nv["init"] = u["rhs"]
+                        nv["l"] = u.get("l", v.get("l"))
+                        new = {"k": "Decl", "l": u.get("l"), "vars": [nv]}
+                        b["s"] = sts[:i] + sts[i + 1:j] + [new] + sts[j + 1:]
+                        count += 1
+                        changed = True
+                    break
+                if changed:
+                    break
+    return count
+
+
 def split_postinc_deref(body):
     """N5: `use(*p++);` is `use(p[0]); p++;` when `*p++` is the only mention of p in the statement (expression statements and
     single-variable declarations; returns and conditions keep their spelling).  Returns the number of rewrites."""
@@ -2067,6 +2198,8 @@ def normalise(facts, do_inline=True, do_propagate=True):
                 if f["body"] is f.get("body_raw"):
                     f["body"] = copy.deepcopy(f["body"])
                 substitute_named_constants(f["body"], facts)
+                stats["sroa"] = stats.get("sroa", 0) + scalar_replace_aggregates(f["body"], facts)
+                stats["decl_merged"] = stats.get("decl_merged", 0) + merge_decl_with_first_store(f["body"])
                 stats["split_postinc"] = stats.get("split_postinc", 0) + split_postinc_deref(f["body"])
                 stats["memos_removed"] = stats.get("memos_removed", 0) + eliminate_local_memos(f["body"], facts, memo)
                 stats["propagated_uses"] += propagate(f["body"], facts, memo)
